@@ -100,8 +100,15 @@ impl Offset {
     /// is undefined and None is returned.
     pub fn len(&self) -> Option<usize> {
         match (self.begin, self.end) {
-            (Cursor::BeginAligned(begin), Cursor::BeginAligned(end)) => Some(end - begin),
-            (Cursor::EndAligned(begin), Cursor::EndAligned(end)) => Some((end - begin).abs() as usize),
+            //(an inverted offset has no length)
+            (Cursor::BeginAligned(begin), Cursor::BeginAligned(end)) => end.checked_sub(begin),
+            (Cursor::EndAligned(begin), Cursor::EndAligned(end)) => {
+                if end >= begin {
+                    end.checked_sub(begin).map(|d| d.unsigned_abs())
+                } else {
+                    None
+                }
+            }
             _ => None
         }
     }
